@@ -1087,7 +1087,7 @@ static CaseSpec encodeArg(int k)
     switch (k)
     {
         case 0: c.mn = 0; c.mx = 1500; c.b = {gen(1, 6, 0)}; break;
-        case 1: c.mn = 64; c.mx = 100; c.b = {gen(1, 5, 0), gen(1, 9, 1), gen(1, 30, 2)}; break;
+        case 1: c.mn = 64; c.mx = 100; c.b = {gen(1, 5, 0), gen(1, 9, 1), gen(1, 30, 2)}; c.api = 2; break;   // through the overload for ranges of shared_ptr<Packet>
         case 2: c.mn = 0; c.mx = 40; c.b = {gen(1, 40, 0)}; c.api = 1; break;           // multi-frame, batch ends in a segment; through the single-packet overload
         case 3:   // type changes; the status packet that opens the second run has payload type BYTE 0 (raw type 0x0300: a message
                   // type without a payload kind - the frame header must announce 3 all the same)
